@@ -23,6 +23,7 @@ func main() {
 	repo := flag.String("repo", "/repo", "repository root")
 	verifd := flag.String("verif", "/verif", "verif root")
 	list := flag.Bool("list", false, "list properties")
+	dumpAnchors := flag.String("dump-anchors", "", "write the anchor record of the current tree to this file and exit")
 	flag.Parse()
 	if *list {
 		var ids []string
@@ -54,6 +55,19 @@ func main() {
 		goroot = "/opt/veriftools/go1.26.8"
 	}
 	os.Setenv("PATH", goroot+"/bin:"+os.Getenv("PATH"))
+	if *dumpAnchors != "" {
+		w, err := NewWorld(*repo, *verifd, false)
+		if err != nil {
+			fmt.Fprintln(os.Stderr, err)
+			os.Exit(2)
+		}
+		defer w.Close()
+		if err := w.DumpAnchors(*dumpAnchors); err != nil {
+			fmt.Fprintln(os.Stderr, err)
+			os.Exit(2)
+		}
+		return
+	}
 	code := run(*prop, *tier, *repo, *verifd, f)
 	os.Exit(code)
 }
@@ -77,6 +91,9 @@ func run(prop, tier, repo, verifd string, f propFn) (code int) {
 		return 2
 	}
 	r := NewReport(prop, tier, w)
+	if len(renameNotes) > 0 {
+		r.Extra["anchors_located_after_rename"] = renameNotes
+	}
 	f(w, r)
 	if tier == "thorough" && os.Getenv("YV_SELFTEST") == "" {
 		vs := runSelfTest(prop, repo, verifd)
